@@ -416,22 +416,27 @@ def run(ctx):
                 model.persist_to_json_file(fname)
                 restored = Model()
                 restored.construct_from_json_file(fname, build_code=True)
+                lazy = Model()
+                lazy.construct_from_json_file(fname)
                 go = subject.outcome_of(
                     lambda: Evaluator(model).evaluate('Sheet1!B2'))
                 gr = subject.outcome_of(
                     lambda: Evaluator(restored).evaluate('Sheet1!B2'))
-                if go != gr or go != ('value', ('num', float(
+                gl = subject.outcome_of(
+                    lambda: Evaluator(lazy).evaluate('Sheet1!B2'))
+                if go != gr or gl != go or go != ('value', ('num', float(
                         n_terms * (n_terms + 1)))):
                     ctx.fail(f'model with a formula of {n_terms} operands: '
                              f'original -> {str(go)[:120]}, restored -> '
-                             f'{str(gr)[:120]}', {'operands': n_terms},
+                             f'{str(gr)[:120]}, restored without build_code '
+                             f'-> {str(gl)[:120]}', {'operands': n_terms},
                              monitor='same-evaluation', group='long-formula')
             except RecursionError:
-                # mechanism of KF-C12-05: depth of the syntax tree
+                # (was KF-C12-05: the syntax trees were persisted, and encoding
+                # them recursed as deep as the formula is long)
                 ctx.fail(f'persist / restore of a compiled model holding a '
                          f'formula of {n_terms} operands raised '
                          f'RecursionError', {'operands': n_terms},
-                         kf='KF-C12-05' if n_terms >= 150 else None,
                          monitor='round-trip-raises',
                          group=f'long-formula-recursion:{n_terms}')
             finally:
